@@ -833,4 +833,28 @@ theorem substring_no_panic (s : FS) (hs : s.wf) (a b : Int) : ¬ (FStr.substring
           rw [h1]; simp [Res.isPanic]
 
 
+theorem encodeChar_length (c : Char) : (encodeChar c).length = c.utf8Size := by
+  unfold encodeChar Char.utf8Size
+  simp only [Char.toNat, UInt32.le_iff_toNat_le]
+  have h1 : (UInt32.ofNatLT 127 Char.utf8Size._proof_1).toNat = 127 := by decide
+  have h2 : (UInt32.ofNatLT 2047 Char.utf8Size._proof_2).toNat = 2047 := by decide
+  have h3 : (UInt32.ofNatLT 65535 Char.utf8Size._proof_3).toNat = 65535 := by decide
+  rw [h1, h2, h3]
+  generalize c.val.toNat = v
+  by_cases a1 : v ≤ 127
+  · simp [a1]
+  · by_cases a2 : v ≤ 2047
+    · simp [a1, a2]
+    · by_cases a3 : v ≤ 65535
+      · simp [a1, a2, a3]
+      · simp [a1, a2, a3]
+
+/-- the UTF-8 encoding shown by the driver has exactly the byte length the model computes with -/
+theorem encode_length (cs : List Char) : (encode cs).length = byteLen cs := by
+  induction cs with
+  | nil => rfl
+  | cons c cs ih =>
+    simp only [encode, List.flatMap_cons, List.length_append, byteLen] at ih ⊢
+    rw [encodeChar_length, ih]
+
 end XrayModel.FStr
